@@ -68,7 +68,7 @@ package agent
 // (COMMAND_FS download sub-commands carry the id as their second integer.)
 //@   guard-call dlopen1:  "DownloadAdd#1" arg(0) == a && arg(1) == FileID && arg(2) == FileName && arg(3) == FileSize
 //@   guard-call dlopen2:  "DownloadAdd#2" arg(0) == a && arg(1) == be32(Data) && arg(3) == be32(Data[4:]) && len(Data) > 8
-//@   guard-call dlchunk1: "DownloadWrite#1" arg(0) == a && arg(1) == FileID && sameslice(arg(2), FileChunk)
+//@   guard-call dlchunk1: "DownloadWrite#1" arg(0) == a && arg(1) == FileID && sameslice(arg(2), lastresult(ParseBytes))
 //@   guard-call dlclose1: "DownloadClose#1" arg(0) == a && arg(1) == FileID
 //@   guard-call dlclose2: "DownloadClose#2" arg(0) == a && arg(1) == FileID
 //@   guard-call dlchunk2: "DownloadWrite#2" arg(0) == a && arg(1) == be32(Data) && sameslice(arg(2), Data[4:])
